@@ -29,6 +29,9 @@ static int vstr_violation;
 typedef struct { size_t len; char b[VSTR_CAP + 1]; } vstr;
 #define VSTR_NPOS (~(size_t)0)
 
+/* isspace in the "C" locale */
+static inline int verif_isspace(int c) { return c == ' ' || c == '\t' || c == '\n' || c == '\v' || c == '\f' || c == '\r'; }
+
 static inline vstr vstr_empty(void) { vstr r; r.len = 0; for (size_t i = 0; i <= VSTR_CAP; i++) r.b[i] = 0; return r; }
 static inline size_t vstr_size(const vstr *s) { return s->len; }
 static inline char vstr_at(const vstr *s, size_t i) {
@@ -113,6 +116,14 @@ static inline int vstr_ieq(const vstr *a, const vstr *b) {
   for (size_t i = 0; i < a->len; i++) if (vstr_lower(a->b[i]) != vstr_lower(b->b[i])) return 0;
   return 1;
 }
-/* isspace in the "C" locale */
-static inline int verif_isspace(int c) { return c == ' ' || c == '\t' || c == '\n' || c == '\v' || c == '\f' || c == '\r'; }
+/* boost::trim_copy in the "C" locale */
+static inline vstr vstr_trim(const vstr *s) {
+  size_t a = 0, b = s->len;
+  while (a < b && verif_isspace(s->b[a])) a++;
+  while (b > a && verif_isspace(s->b[b - 1])) b--;
+  vstr r = vstr_empty();
+  for (size_t i = a; i < b; i++) r.b[i - a] = s->b[i];
+  r.len = b - a; r.b[r.len] = 0;
+  return r;
+}
 #endif
